@@ -26,7 +26,11 @@ from pydsol.core.units import Duration
 from pydsol.core.utils import DSOLError
 
 CONCS = ("float", "int", "dur", "mixed")
-CONCS_OFF = ("float", "int", "dur", "mixed", "float+6", "int-3", "dur+2", "int+7", "mixed-1", "float+4000000000", "dur+4000000000")
+CONCS_OFF_BASE = ("float", "int", "dur", "mixed", "float+6", "int-3", "dur+2", "int+7", "mixed-1", "float+4000000000", "dur+4000000000")
+CONCS_OFF = CONCS_OFF_BASE + ("durh", "int+9007199254740993")
+# "durh": a Duration clock whose replication start carries the unit 'h' (the clock inherits it) while every delay is a multiple of 63 s:
+#   clock + delay must be the exact SI sum, not a value rebuilt through the display unit (63k / 3600 * 3600 is 1 ulp off for k = 1, 2, 4, 8, 16);
+# "int+9007199254740993": an int clock beyond 2^53 (nanoseconds since an epoch, say), where adjacent times coincide as floats
 BAD = -999
 
 
@@ -64,6 +68,8 @@ class Conc:
             return int(k)
         if n == "dur":
             return Duration(k / 4.0, "s")
+        if n == "durh":
+            return Duration(0.0, "h") if k == 0 else Duration(63.0 * k, "s")
         if n == "mixed":
             return Duration(15.0 * k, "s") if alt % 2 == 0 else Duration(k / 4.0, "min")
         raise ValueError(n)
@@ -71,14 +77,20 @@ class Conc:
     def nan(self):
         if self.name in ("float", "int"):
             return float("nan")
+        if self.name == "durh":
+            return Duration(float("nan"), "h")
         return Duration(float("nan"), "s")
 
     def back(self, x):
         """real time -> spec integer (BAD when not on the grid)"""
         try:
             n = self.name
+            if n == "int" and type(x) is int:
+                return x - self.off          # exact, also beyond 2^53
             v = float(x)
-            if n == "float" or n == "dur":
+            if n == "durh":
+                v = v / 63.0
+            elif n == "float" or n == "dur":
                 v = v * 4
             elif n == "mixed":
                 v = v / 15.0
@@ -206,6 +218,24 @@ class _Listener(EventListener):
         self.ctl.on_notify(event)
 
 
+class _OneShot(EventListener):
+    """a subscriber that unsubscribes itself inside its first notification (registered BEFORE the observing listener:
+    the notification it is handling must still reach everybody who was subscribed when it was fired)"""
+
+    def __init__(self, sim, et):
+        self.sim, self.et, self.n = sim, et, 0
+
+    def __len__(self):
+        return 0
+
+    def notify(self, event):
+        self.n += 1
+        try:
+            self.sim.remove_listener(self.et, self)
+        except Exception:
+            pass
+
+
 NOTIF_TYPES = None
 
 
@@ -272,6 +302,8 @@ class SimCtl:
         self.errors = []
         self.in_run_mode = False
         self.probe_starting = False
+        self.probe_cmds = False         # commands issued by a listener of START_REPLICATION / STARTING (the simulator is STARTING: all refused)
+        self.one_shots = False          # self-unsubscribing subscribers registered before the observing listener
         self.extra_on_handler = None
         self.obs = []
 
@@ -431,8 +463,32 @@ class SimCtl:
                 _time.sleep(0.0002)
             self.rec({"a": "Pause"})
 
+    def _probe_listener_cmds(self, where):
+        """the simulator is STARTING while start() / run_up_to() hands out START_REPLICATION and STARTING: a listener that calls
+        start, step or a bounded run is refused with DSOLError, nothing changes and nobody is notified"""
+        if threading.current_thread() is not self.ctl_thread or getattr(self, "cur_cmd", None) not in ("Start", "RunUpTo", "RunUpToIncl"):
+            return
+        before = (self.sim.run_state, self.sim.replication_state, self.sim.simulator_time, len(self.trace))
+        for name, call in (("step", lambda: self.sim.step()), ("start", lambda: self.sim.start()),
+                           ("run_up_to_including", lambda: self.sim.run_up_to_including(self.sim.replication.end_sim_time))):
+            try:
+                call()
+                self.errors.append(f"listener_cmd_accepted: {name}() issued by a listener of {where} (simulator STARTING) was accepted")
+                return
+            except DSOLError:
+                pass
+            except Exception as ex:
+                self.errors.append(f"listener_cmd_accepted: {name}() issued by a listener of {where} raised {type(ex).__name__}: {ex}")
+                return
+            after = (self.sim.run_state, self.sim.replication_state, self.sim.simulator_time, len(self.trace))
+            if after != before:
+                self.errors.append(f"listener_cmd_accepted: refused {name}() in a listener of {where} changed (run state, replication state, time, #records) {before} -> {after}")
+                return
+
     def on_notify(self, event):
         ty = notif_types().get(event.event_type)
+        if self.probe_cmds and (ty == "START_REPLICATION" or event.event_type is SimulatorInterface.STARTING_EVENT):
+            self._probe_listener_cmds(ty or "STARTING")
         if ty is None:
             if self.probe_starting and event.event_type is SimulatorInterface.STARTING_EVENT:
                 # initialize() issued in the STARTING window must be refused and change nothing
@@ -459,8 +515,10 @@ class SimCtl:
     # ------------------------------------------------------------------ controller side
     def subscribe(self):
         for et in notif_types():
+            if self.one_shots:
+                self.sim.add_listener(et, _OneShot(self.sim, et))
             self.sim.add_listener(et, self.listener)
-        if self.probe_starting:
+        if self.probe_starting or self.probe_cmds:
             self.sim.add_listener(SimulatorInterface.STARTING_EVENT, self.listener)
 
     def worker(self):
@@ -494,6 +552,7 @@ class SimCtl:
         self.ctl_thread = threading.current_thread()
         e = self.rec(ev)
         w_before = self.worker()
+        self.cur_cmd = name
         try:
             fn()
             e["res"] = "ok"
@@ -502,6 +561,8 @@ class SimCtl:
         except Exception as ex:
             e["res"] = type(ex).__name__
             e["msg"] = str(ex)[:200]
+        finally:
+            self.cur_cmd = None
         return e
 
     def initialize(self):
